@@ -1,4 +1,5 @@
 import OtelVerif.Lemmas.C03
+import OtelVerif.Lemmas.C03Term
 /-!
 # C03 — graceful exporter shutdown drains accepted data and stops all work
 
@@ -134,15 +135,39 @@ theorem C03_persistent_stops_dispatch (s : State) (i : Nat) (hpq : s.cfg.persist
   · rfl
 
 
-/-- NOT PROVED (named gap): termination of `Shutdown`.  Full statement: from every reachable state in which shutdown has been
-requested, some schedule reaches `phase = 5` (no state is stuck), provided the worker pool has at least one slot.  It needs a
-ranking argument over the drain (two more invariants: worker accounting `workers + live unowned flights = pool size`, and
-`busy f → flight f is live`).  On the implementation it is monitored: the harness reports `C03/shutdown/never-returns` when
-`Shutdown` has not returned after 100 virtual hours. -/
+/-- Termination of `Shutdown`, full statement (proved below as `C03_shutdown_terminates`): from every reachable state in which
+shutdown has been requested some schedule reaches `phase = 5`, provided the default batcher's worker pool has at least one slot
+(free or in use). -/
 def C03_shutdown_terminates_full : Prop :=
   ∀ s : State, Reachable s → 1 ≤ s.phase →
     (s.cfg.batching = true → 0 < s.workers + (s.flights.filter (fun fl => fl.owner.isNone && fl.st != .done)).length) →
     ∃ ls s', runFrom s ls = some s' ∧ s'.phase = 5
+
+/-- **Stuck-freedom.** While `Shutdown` has not returned, some step other than the environment's `offer` is enabled: a helper
+goroutine, a retry loop, the backend returning ("every export call returns"), or the shutdown goroutine itself can move. -/
+theorem C03_not_stuck {s : State} (h : Reachable s) (hpool : PoolOK s) (hp : s.phase < 5) :
+    ∃ l s', isOffer l = false ∧ fire s l = some s' := not_stuck h hpool hp
+
+/-- the pool hypothesis is preserved by every step (`workers + live flush goroutines` is constant) -/
+theorem C03_pool_invariant {s s' : State} {l : Label} (h : PoolOK s) (hf : fire s l = some s') : PoolOK s' := poolOK_step h hf
+
+/-- **Measure.** Once shutdown has been requested every non-offer step strictly decreases the lexicographic measure `mu`
+(no retry is scheduled any more: `expEnd … again` needs `phase = 0`). -/
+theorem C03_drain_measure {s s' : State} {l : Label} (hp : 1 ≤ s.phase) (hl : isOffer l = false) (hf : fire s l = some s') :
+    Prod.Lex (· < ·) (· < ·) (mu s') (mu s) := mu_decreases hp hl hf
+
+/-- **No infinite drain.** After the shutdown request there is no infinite sequence of non-offer steps: with `C03_not_stuck`,
+every maximal offer-free execution is finite and ends with `Shutdown` returned. -/
+theorem C03_drain_wellFounded :
+    WellFounded (fun s' s : State => 1 ≤ s.phase ∧ ∃ l, isOffer l = false ∧ fire s l = some s') := drain_wellFounded
+
+/-- **Termination.** -/
+theorem C03_shutdown_terminates : C03_shutdown_terminates_full :=
+  fun _ h hp hpool => let ⟨ls, s', _, hr, h5⟩ := shutdown_terminates h hp hpool; ⟨ls, s', hr, h5⟩
+
+/-- … by a schedule of helper/backend/shutdown steps only (no further offer is needed or harmful) -/
+theorem C03_shutdown_terminates_without_offers {s : State} (h : Reachable s) (hp : 1 ≤ s.phase) (hpool : PoolOK s) :
+    ∃ ls s', (∀ l ∈ ls, isOffer l = false) ∧ runFrom s ls = some s' ∧ s'.phase = 5 := shutdown_terminates h hp hpool
 
 /-! ## non-vacuity: concrete schedules -/
 
